@@ -10,6 +10,7 @@ import (
 	"sort"
 	"strconv"
 	"strings"
+	"sync/atomic"
 	"syscall"
 	"testing"
 	"time"
@@ -35,6 +36,7 @@ func TestMain(m *testing.M) {
 //
 //	change    the provider's watcher is called with a nil error (configuration changed)
 //	watcherr  the provider's watcher is called with an error
+//	burst     several watcher calls in a row (B: false = changed, true = error), made while earlier ones may still be unread
 //	sighup / sigint / sigterm   a real signal sent to the own pid
 //	shutdown  Collector.Shutdown() from N goroutines at once
 //	cancel    the context given to Run is cancelled
@@ -42,6 +44,8 @@ func TestMain(m *testing.M) {
 type Act struct {
 	K string `json:"k"`
 	N int    `json:"n,omitempty"`
+	// burst: one watcher call per element, each from its own goroutine (the provider's), true = with an error
+	B []bool `json:"b,omitempty"`
 }
 
 // Gen describes the configuration served for one generation (= one
@@ -138,15 +142,20 @@ func genAct(t *rapid.T, label string, kinds []string) Act {
 		a.N = 1 + uni(t, label+"-n", 4)
 	case "fatal":
 		a.N = uni(t, label+"-c", 5)
+	case "burst":
+		n := 2 + uni(t, label+"-blen", 3)
+		for i := 0; i < n; i++ {
+			a.B = append(a.B, pct(t, fmt.Sprintf("%s-b%d", label, i), 35))
+		}
 	}
 	return a
 }
 
 var (
 	// weights by repetition
-	runningKinds = []string{"change", "change", "change", "sighup", "sighup", "watcherr", "sigint", "sigterm", "shutdown", "shutdown", "cancel"}
-	pauseKinds   = []string{"change", "sighup", "watcherr", "sigint", "sigterm", "shutdown", "shutdown", "shutdown", "cancel"}
-	noSigKinds   = []string{"change", "watcherr", "shutdown", "shutdown", "cancel"}
+	runningKinds = []string{"change", "change", "change", "sighup", "sighup", "watcherr", "sigint", "sigterm", "shutdown", "shutdown", "cancel", "burst"}
+	pauseKinds   = []string{"change", "sighup", "watcherr", "sigint", "sigterm", "shutdown", "shutdown", "shutdown", "cancel", "burst", "burst"}
+	noSigKinds   = []string{"change", "watcherr", "shutdown", "shutdown", "cancel", "burst"}
 	finalKinds   = []string{"shutdown", "shutdown", "sigint", "sigterm", "cancel", "watcherr", "fatal"}
 )
 
@@ -290,9 +299,12 @@ type driver struct {
 	fired     []string // what was actually fired, in order ("running:g0:change", …)
 	stopKinds map[string]bool
 	sawClosed bool
-	finding   *vt.Finding // first violation seen by the driver itself (Shutdown panics / blocks …)
-	returned  bool
-	res       runResult
+	// bursts of watcher calls (each on its own goroutine)
+	burstCalls, burstReturned, burstPanics atomic.Int32
+	inexactBurst                           bool
+	finding                                *vt.Finding // first violation seen by the driver itself (Shutdown panics / blocks …)
+	returned                               bool
+	res                                    runResult
 	// snapshot taken when Run's return was observed
 	stopAtReturn int
 }
@@ -354,7 +366,7 @@ func (d *driver) fire(where string, gen int, acts []Act, paused bool, self strin
 	ordered := make([]Act, 0, len(acts))
 	seenW := false
 	for _, a := range acts {
-		if a.K == "change" || a.K == "watcherr" {
+		if a.K == "change" || a.K == "watcherr" || a.K == "burst" {
 			if !seenW {
 				ordered = append([]Act{a}, ordered...)
 				seenW = true
@@ -388,6 +400,74 @@ func (d *driver) fire(where string, gen int, acts []Act, paused bool, self strin
 				d.watchErrd = true
 				d.stopKinds["watcherr"] = true
 				wf(&confmap.ChangeEvent{Error: errors.New("injected watch error")})
+			}
+			stable = paused
+		case "burst":
+			// Several notifications while earlier ones may still be unread (the loop is busy: a component is held
+			// inside Start/Shutdown, or a reload is under way).  Each call runs on its own goroutine, as a provider's
+			// would: with the Resolver's one-slot channel a call blocks until the loop has taken the previous event.
+			wf := d.w.watcher(d.w.numRetrieves() - 1)
+			if d.stop != stopNone || final || d.wOut || d.lossy || wf == nil || len(a.B) == 0 || raceBuild {
+				d.c.Class("skipped:watcher-call-not-allowed")
+				continue
+			}
+			shape, hasErr := "", false
+			for _, isErr := range a.B {
+				ev := &confmap.ChangeEvent{}
+				if isErr {
+					ev.Error = errors.New("injected watch error (burst)")
+					hasErr = true
+					shape += "E"
+				} else {
+					shape += "c"
+				}
+			}
+			tag = fmt.Sprintf("%s:g%d:burst[%s]", where, gen, shape)
+			d.w.add(gen, "", "h:"+tag, false)
+			for _, isErr := range a.B {
+				ev := &confmap.ChangeEvent{}
+				if isErr {
+					ev.Error = errors.New("injected watch error (burst)")
+				}
+				done := make(chan struct{})
+				d.burstCalls.Add(1)
+				go func() {
+					defer close(done)
+					if p, _ := vt.Recover(func() { wf(ev) }); p != nil {
+						// the Resolver closed its channel under a blocked sender (only after a stop): not C20's business
+						d.burstPanics.Add(1)
+					}
+					d.burstReturned.Add(1)
+				}()
+				select { // keep the calls in script order as far as that is possible from outside
+				case <-done:
+				case <-time.After(300 * time.Microsecond):
+				}
+			}
+			d.wOut = true
+			if hasErr {
+				// a watch error has been handed to the collector's callback: a stop reason, however many plain
+				// notifications were pending before it
+				d.stop = stopSure
+				d.watchErrd = true
+				d.stopKinds["watcherr"] = true
+				if strings.Contains(shape, "c") {
+					// the plain notifications of the burst may each cause a reload first (or not): inexact accounting
+					d.lossy, d.inexactBurst = true, true
+				}
+				switch {
+				case a.B[0]:
+					d.c.Class("burst:error-first")
+				default:
+					d.c.Class("burst:changes-pending-before-error")
+				}
+			} else {
+				// at least one reload follows; whether every notification causes its own reload is not promised
+				// (coalescing is fine), so the trigger accounting is inexact from here on
+				d.triggers++
+				d.lossy = true
+				d.inexactBurst = true
+				d.c.Class("burst:changes-only")
 			}
 			stable = paused
 		case "sighup", "sigint", "sigterm":
@@ -522,6 +602,11 @@ func (d *driver) safeOnly(acts []Act) []Act {
 	}
 	return out
 }
+
+// raceBuild: the driver sets VT_RACE for the shards of the -race build.  Bursts are left out there: a provider
+// goroutine blocked in the Resolver's watcher send while the Resolver closes that channel IS a send/close race
+// (of confmap, not part of C20's statement) and the detector would report it.
+var raceBuild = os.Getenv("VT_RACE") != ""
 
 const inProcessLimit = 15 * time.Second
 
@@ -918,6 +1003,9 @@ func classify(c *vt.C, d *driver) {
 	for _, f := range d.fired {
 		p := strings.SplitN(f, ":", 3) // where:gN:kind
 		if len(p) == 3 {
+			if strings.HasPrefix(p[2], "burst") {
+				p[2] = "burst"
+			}
 			c.Class("fired:" + p[0] + ":" + p[2])
 			if p[1] != "g0" && (p[0] == "in-start" || p[0] == "in-shutdown") {
 				c.Class("fired:" + p[0] + "(gen>=1):" + p[2])
@@ -949,15 +1037,23 @@ func classify(c *vt.C, d *driver) {
 	for _, ks := range perPoint {
 		var trig, stop bool
 		for _, k := range ks {
-			trig = trig || k == "change" || k == "sighup"
-			stop = stop || k == "shutdown" || k == "cancel" || k == "sigint" || k == "sigterm" || k == "watcherr"
+			trig = trig || k == "change" || k == "sighup" || (strings.HasPrefix(k, "burst") && strings.Contains(k, "c"))
+			stop = stop || k == "shutdown" || k == "cancel" || k == "sigint" || k == "sigterm" || k == "watcherr" || (strings.HasPrefix(k, "burst") && strings.Contains(k, "E"))
 		}
 		if trig && stop {
 			c.Class("together:reload-trigger+stop")
 		}
 	}
-	if d.lossy {
+	if d.lossy && !d.inexactBurst {
 		c.Class("lossy:signal-resent")
+	}
+	if n := d.burstCalls.Load(); n > 0 {
+		if r := d.burstReturned.Load(); r < n {
+			c.Class("burst:calls-still-blocked-when-run-returned")
+		}
+		if d.burstPanics.Load() > 0 {
+			c.Class("burst:blocked-call-panicked-on-resolver-shutdown(send on closed channel)")
+		}
 	}
 	if s.Pre > 0 {
 		c.Class("shutdown-before-run")
